@@ -188,6 +188,26 @@ def main():
     req = json.load(sys.stdin)
     out = []
     for case in req['cases']:
+        if case.get('pair'):
+            # two requests on ONE parser object, both created before either is read: each file's tables are those of the file
+            # that is read last, whatever was created when
+            import io as _io
+            fa, fb = (bytes.fromhex(x) for x in case['pair'])
+            tp, pn = {}, {}
+            parser = KdBufParser(tp, pn)
+            ga, gb = parser.parse(_io.BytesIO(fa)), parser.parse(_io.BytesIO(fb))
+            res = {}
+            try:
+                na = len(list(ga))
+                res['after_a'] = [sorted([k, v] for k, v in tp.items()), sorted([k, v] for k, v in pn.items())]
+                nb = len(list(gb))
+                res['after_b'] = [sorted([k, v] for k, v in tp.items()), sorted([k, v] for k, v in pn.items())]
+                res['counts'] = [na, nb]
+                res['err'] = None
+            except Exception as ex:  # noqa
+                res['err'] = type(ex).__name__
+            out.append([res])
+            continue
         data = bytes.fromhex(case['file'])
         ks = case.get('ks') or [len(data)]
         brief = case.get('brief', False)
